@@ -195,9 +195,11 @@ class Ctx(_CtxBase):
             return
         self.obls.append((label, z3.Implies(w, c) if not z3.is_true(w) else c, w, info))
 
-    def finish(self):
-        """Discharge the collected obligations. Returns list of violation dicts."""
+    def finish(self, skip_models=()):
+        """Discharge the collected obligations. Returns list of violation dicts (labels in
+        ``skip_models`` are reported without a model: enough of them have been collected)."""
         viol = []
+        modelled = {}
         if not self.obls:
             return viol
         self.nobl += len(self.obls)
@@ -224,7 +226,10 @@ class Ctx(_CtxBase):
                 self.ndis += 1
             elif r == z3.unknown:
                 self.undecided.append((label, self.solver.reason_unknown()))
+            elif label in skip_models or modelled.get(label, 0) >= 1:
+                viol.append(dict(label=label, info=None, inputs=None))
             else:
+                modelled[label] = 1
                 viol.append(
                     dict(label=label, info=_info_plain(info), inputs=self._model_inputs(z3.Not(e)), decisions=list(self.trace))
                 )
